@@ -125,7 +125,7 @@ def make_enum(xml_elem):
             value = required(member, 'value')
             try:
                 int_value = int(value, 0)
-                if int_value < 0:
+                if -0x80000000 <= int_value < 0:
                     value = "0x{:X}".format(0x100000000 + int_value)
             except ValueError:
                 pass
